@@ -331,7 +331,16 @@ func (t *Total) Merge(t2 *Total) *Total {
 					rateTotal.Base = rateTotal.Base.Add(rt.Base)
 					rateTotal.Amount = rateTotal.Amount.Add(rt.Amount)
 					if rt.Surcharge != nil {
-						rateTotal.Surcharge.Amount = rateTotal.Surcharge.Amount.Add(rt.Surcharge.Amount)
+						if rateTotal.Surcharge == nil {
+							// Exempt rates match regardless of their surcharges,
+							// so only the second total may be carrying one.
+							rateTotal.Surcharge = &RateTotalSurcharge{
+								Percent: rt.Surcharge.Percent,
+								Amount:  rt.Surcharge.Amount,
+							}
+						} else {
+							rateTotal.Surcharge.Amount = rateTotal.Surcharge.Amount.Add(rt.Surcharge.Amount)
+						}
 					}
 				}
 			}
